@@ -6,3 +6,4 @@ pub mod fixture;
 pub mod util;
 pub mod poolfix;
 pub mod poolhist;
+pub mod netctx;
